@@ -46,6 +46,9 @@ type out struct {
 	Cuts         map[string]string `json:"cuts"`
 	CutIDs       []int             `json:"cut_ids"`
 	Probe        []int             `json:"probe"`
+	Virtual      []int             `json:"virtual_os"`
+	VirtualReal  []string          `json:"virtual_os_real_reached"`
+	VirtualWit   [][]string        `json:"virtual_os_witness_paths"`
 	ReachedFuncs int               `json:"reached_functions"`
 }
 
@@ -194,6 +197,9 @@ func main() {
 		if strings.HasPrefix(name(fn), "(*"+risor+"os.SimpleOS).") {
 			o.Probe = append(o.Probe, src)
 		}
+		if strings.HasPrefix(name(fn), "(*"+risor+"os.VirtualOS).") {
+			o.Virtual = append(o.Virtual, src)
+		}
 		for _, g := range globalsOf(fn) {
 			gi := globalID(g)
 			realSet[gi] = true
@@ -297,6 +303,48 @@ func main() {
 			o.Witness = append(o.Witness, path)
 		}
 	}
+	// the same search from the methods of risor's own VirtualOS: a host that supplies a VirtualOS must not be served by
+	// the real operating system behind its back
+	{
+		pred := map[int]int{}
+		seen := map[int]bool{}
+		queue := append([]int{}, o.Virtual...)
+		for _, r := range o.Virtual {
+			seen[r] = true
+		}
+		for len(queue) > 0 {
+			n := queue[0]
+			queue = queue[1:]
+			if isCut[n] {
+				continue
+			}
+			for _, m := range succs[n] {
+				if !seen[m] {
+					seen[m] = true
+					pred[m] = n
+					queue = append(queue, m)
+				}
+			}
+		}
+		for _, r := range o.Real {
+			if !seen[r] {
+				continue
+			}
+			o.VirtualReal = append(o.VirtualReal, names[r-1])
+			var path []string
+			for cur, n := r, 0; n < 60; n++ {
+				path = append([]string{names[cur-1]}, path...)
+				p, ok := pred[cur]
+				if !ok {
+					break
+				}
+				cur = p
+			}
+			if len(o.VirtualWit) < 20 {
+				o.VirtualWit = append(o.VirtualWit, path)
+			}
+		}
+	}
 	if mode == "text" {
 		j, _ := json.Marshal(o)
 		fmt.Println(string(j))
@@ -374,6 +422,13 @@ func main() {
 	}
 	sb.WriteString("].\n\n(* the methods of risor's SimpleOS: they DO call the real OS (used to show the analysis is not vacuous) *)\nDefinition probe : list positive :=\n  [")
 	for i, r := range o.Probe {
+		if i > 0 {
+			sb.WriteString("; ")
+		}
+		fmt.Fprintf(&sb, "%d", r)
+	}
+	sb.WriteString("].\n\n(* the methods of risor's VirtualOS: an OS a host may supply; it must not reach the real one *)\nDefinition virtual_os : list positive :=\n  [")
+	for i, r := range o.Virtual {
 		if i > 0 {
 			sb.WriteString("; ")
 		}
